@@ -225,6 +225,14 @@ def region_cond(E, t, key):
 def _record_write(E, t, node):
     root = t.root()
     E.writes.append(("tensor", root, None, None, E.loc(node)))
+    # version counter: bumped by every in-place write except those made through a `.data` alias
+    cur, through_data = t, False
+    while cur is not None:
+        if cur.attrs.get("data_alias"):
+            through_data = True
+        cur = cur.base
+    if not through_data:
+        root.attrs["_version"] = root.attrs.get("_version", 0) + 1
 
 
 def write_region(E, t, cond, val, node=None):
